@@ -190,6 +190,9 @@ class SetModel(explorer.Model):
                     s ^= other
                 exp_ret = ('is', w.s)
                 ret = s
+                # the operand must be left alone and must not be adopted: changing s later must not change it
+                if kind in ('oset', 'qset', 'list'):
+                    w.operand_after = (lst(other), other_vals, other)
             elif name == 'iterdel':
                 _, direction, pos = op
                 order = list(r) if direction == 'fwd' else list(reversed(r))
@@ -254,6 +257,18 @@ class SetModel(explorer.Model):
             kind = 'content' if sorted(map(repr, obs)) != sorted(map(repr, r)) else 'order'
             bad(kind, 'iterates as %r, expected %r' % (obs, r), repr(r), repr(obs))
             return False
+        oa = getattr(w, 'operand_after', None)
+        if oa is not None and not got_exc and name == 'iop':
+            w.operand_after = None
+            if oa[0] != oa[1]:
+                bad('operand-changed', 'the right operand %r was changed to %r' % (oa[1], oa[0]), repr(oa[1]), repr(oa[0]))
+                return False
+            w.s.add(OUTSIDE)
+            changed = lst(oa[2]) != oa[1]
+            w.s.discard(OUTSIDE)
+            if changed:
+                bad('operand-aliased', 'adding to the set after %s changed the right operand' % (op[1],))
+                return False
         ctx.count('traces')
         if not self.check_state(ctx, w, case, bad):
             return False
